@@ -589,7 +589,10 @@ def new_stats():
 
 def correspond(ctx):
     if not SCHEMAS:
-        regen(ctx)
+        try:
+            regen(ctx)
+        except vlib.TranslateError:
+            pass                      # already reported by the framework; the file-level oracle still runs
     rng = ctx.rng
     stats = new_stats()
     count = 70 if ctx.quick() else 1200
@@ -599,7 +602,25 @@ def correspond(ctx):
     for cls, f in SCHEMAS.get("_uninit", []):
         ctx.res.notes.append("%s::%s is read by its key but initialised by no constructor: when the key is absent (as in every "
                              "heat-flow file written by xfemm, see lost-key:[dt]) the solver uses an indeterminate value" % (cls, f))
-    dis, mstats = model_correspondence(ctx, vlib.Rng(ctx.seed + 7), 9 if ctx.quick() else 90)
+    if SCHEMAS:
+        dis, mstats = model_correspondence(ctx, vlib.Rng(ctx.seed + 7), 9 if ctx.quick() else 90)
+    else:
+        dis, mstats = [], {"blocks": 0, "values": 0, "classes": {}, "skipped": "translator failed"}
+    # one entry per distinct disagreement
+    seen, uniq = set(), []
+    for d in dis:
+        k = d.get("signature", d["what"])
+        if k not in seen:
+            seen.add(k)
+            uniq.append(d)
+    dis = uniq
+    if ctx.failing_inputs and dis:
+        # the framework reports failing inputs in preference to model disagreements; a disagreement must not be
+        # lost that way: report it as a finding of its own (the block is the failing input of the tie)
+        for d in dis:
+            ctx.fail("reader+writer of the implementation and the schema model differ on a block: " + d["what"],
+                     signature=d.get("signature", "model-differs"), block=d.get("block"), file=d.get("file"))
+        dis = []
     cov = ctx.res.cov
     cov["evaluations"] = stats["files"] + mstats["blocks"]
     cov["distinct_nontrivial"] = stats.get("distinct", 0) + mstats["blocks"]
